@@ -16,7 +16,7 @@ use std::collections::{BTreeMap, BTreeSet};
 use std::sync::atomic::Ordering;
 use std::sync::Arc;
 
-pub const COUNTERS: &[&str] = &["sibling_bases", "sibling_variants_square", "sibling_variants_side", "sibling_variants_rights", "sibling_variants_ep", "sibling_pairs_compared", "piece_square_keys_exercised", "collision_table_positions", "collision_table_hashes"];
+pub const COUNTERS: &[&str] = &["sibling_bases", "sibling_variants_square", "sibling_variants_side", "sibling_variants_rights", "sibling_variants_ep", "sibling_pairs_compared", "piece_square_keys_exercised", "collision_table_positions", "collision_table_hashes", "double_variants"];
 
 pub struct C09 {
     /// get_hash() -> packed observable position
@@ -173,7 +173,98 @@ fn sibling_sweep(run: &Arc<Run>, bases: &[RefPos]) {
     }
 }
 
-pub const RULE: &str = "(a) sibling sweep: for every base position (curated roots + a spread of 3-man and en-passant-family positions) all single-component variants that are valid positions — each square set to each of the 13 contents, the other side to move, all 16 castling-rights sets, all 9 en-passant states — grouped by observable position; all hashes within a sibling group must be pairwise different (XOR structure: this exercises every piece-square key that can legally occur, all castling and en-passant keys and the side key, and every pair inside a group). (b) collision table: every position of the standard universes goes into get_hash() -> observable position; two different positions under one hash is a collision. distinct_nontrivial = sibling variants compared + 0 for table entries (table size reported separately)";
+pub const STATE_RICH_BASES: &[&str] = &[
+    "r3k2r/8/8/PpPpPpPp/pPpPpPpP/8/8/R3K2R w KQkq - 0 1",
+    "r3k2r/8/8/pPpPpPpP/PpPpPpPp/8/8/R3K2R b KQkq - 0 1",
+    "4k3/8/8/PpPpPpPp/pPpPpPpP/8/8/4K3 w - - 0 1",
+];
+
+#[derive(Clone, Copy)]
+enum Var {
+    Sq(u8, u8),
+    Side,
+    Rights(u8),
+    Ep(i8),
+}
+fn apply_var(p: &mut RefPos, v: Var) {
+    match v {
+        Var::Sq(s, c) => p.bd[s as usize] = c,
+        Var::Side => {
+            p.stm = p.stm.flip();
+            p.dp = -1;
+        }
+        Var::Rights(b) => p.castle = b,
+        Var::Ep(f) => p.dp = f,
+    }
+}
+/// (c) every position that differs from a base in TWO components (two squares, or a square and
+/// side / rights / en-passant state, or two of the latter) goes into the collision table: a
+/// relation k1 ^ k2 == k3 ^ k4 among four keys (e.g. keys that are separable into a square part
+/// and a piece part) makes two such positions collide although all single-component variants differ.
+fn double_variant_sweep(run: &Arc<Run>, oracle: &C09, bases: &[RefPos]) {
+    use rayon::prelude::*;
+    for base in bases {
+        let mut vars: Vec<Var> = vec![];
+        for s in 0..64u8 {
+            for c in 0..=12u8 {
+                if base.bd[s as usize] != c {
+                    vars.push(Var::Sq(s, c));
+                }
+            }
+        }
+        vars.push(Var::Side);
+        for b in 0..16u8 {
+            if b != base.castle {
+                vars.push(Var::Rights(b));
+            }
+        }
+        for f in -1..8i8 {
+            if f != base.dp {
+                vars.push(Var::Ep(f));
+            }
+        }
+        (0..vars.len()).into_par_iter().for_each(|i| {
+            if run.has_violation() || run.over_budget() {
+                return;
+            }
+            for j in i..vars.len() {
+                // j == i: the single variant itself (and, once, the base) also enters the table
+                let (a, b) = (vars[i], vars[j]);
+                let same_component = match (a, b) {
+                    (Var::Sq(x, _), Var::Sq(y, _)) => x == y,
+                    (Var::Rights(_), Var::Rights(_)) | (Var::Ep(_), Var::Ep(_)) => true,
+                    _ => false,
+                };
+                if same_component && j != i {
+                    continue;
+                }
+                let mut p = *base;
+                apply_var(&mut p, a);
+                if j != i {
+                    // the side flip clears the en-passant state: it is applied before an ep variant
+                    apply_var(&mut p, b);
+                }
+                if !p.is_valid() {
+                    continue;
+                }
+                let bd = match guard::lib(|| from_scratch(&p)) {
+                    Ok(Ok(bd)) => bd,
+                    _ => continue,
+                };
+                let h = bd.get_hash();
+                let o = observe(&bd);
+                run.add("double_variants", 1);
+                if let Seen::Differs(old) = oracle.table.insert_check(h, pack(&o)) {
+                    let other = unpack(&old);
+                    run.report(Violation::new("C09", "collision", "", format!("hash {h:#018x} is shared by the different positions {} and {} (two-component variants of {})", o.describe(), other.fen(), base.fen()), json!({"kind": "collision", "a": p.fen(), "b": other.fen()})));
+                    return;
+                }
+            }
+        });
+    }
+}
+
+pub const RULE: &str = "(a) sibling sweep: for every base position (curated roots + a spread of 3-man and en-passant-family positions) all single-component variants that are valid positions — each square set to each of the 13 contents, the other side to move, all 16 castling-rights sets, all 9 en-passant states — grouped by observable position; all hashes within a sibling group must be pairwise different (XOR structure: this exercises every piece-square key that can legally occur, all castling and en-passant keys and the side key, and every pair inside a group). (b) collision table: every position of the standard universes goes into get_hash() -> observable position; two different positions under one hash is a collision. (c) for a few dense bases (quick 12, thorough 48) and six state-rich bases (all four rights, every file a possible en-passant file for either side on one placement) the base, EVERY single-component variant and EVERY valid position that differs from the base in two components (two squares; a square and side / rights / en-passant state; two of side / rights / en-passant state) also goes into that table, so that four-key relations k1^k2 = k3^k4 (separable or repeated key material) surface as collisions. distinct_nontrivial = sibling variants compared + 0 for table entries (table size reported separately)";
 
 pub fn run(tier: Tier) -> i32 {
     let run = Arc::new(Run::new("C09", tier, COUNTERS));
@@ -200,12 +291,35 @@ pub fn run(tier: Tier) -> i32 {
             }
         }
     }
+    for f in STATE_RICH_BASES {
+        let p = RefPos::from_fen(f).expect("machinery: state-rich base");
+        bases.push(p);
+        bases.push(p.mirror_v());
+    }
     let cf = CastleFamily { extras: 1, opp_rights: true, opp_to_move: false };
     bases.extend((0..cf.size()).step_by(stride as usize).filter_map(|i| cf.get(i)));
     sibling_sweep(&run, &bases);
     run.note("sibling_bases", json!(bases.len()));
     // (b) collision table
     let oracle = Arc::new(C09 { table: ShardMap::new() });
+    // (c) two-component variants of a few dense bases
+    if !run.has_violation() {
+        let rs = roots();
+        let dense: Vec<RefPos> = rs.iter().map(|r| r.pos).filter(|p| p.men() >= 12).collect();
+        let n2 = tier.pick(11usize, 47usize);
+        let mut b2: Vec<RefPos> = vec![RefPos::from_fen("rnbqkbnr/pppppppp/8/8/8/8/PPPPPPPP/RNBQKBNR w KQkq - 0 1").unwrap()];
+        // state-rich bases: every castling right present and EVERY file a possible en-passant file for
+        // both colours on one placement, so that all pairs (and, with the side flip, triples) of side /
+        // rights / en-passant keys meet in one table
+        for f in STATE_RICH_BASES {
+            let p = RefPos::from_fen(f).expect("machinery: state-rich base");
+            b2.push(p);
+            b2.push(p.mirror_v());
+        }
+        b2.extend(dense.iter().step_by((dense.len() / n2).max(1)).take(n2).copied());
+        double_variant_sweep(&run, &oracle, &b2);
+        run.note("double_variant_bases", json!(b2.iter().map(|p| p.fen()).collect::<Vec<_>>()));
+    }
     if !run.has_violation() {
         run_plan(&run, &oracle, &standard_plan(tier, 1));
     }
